@@ -558,7 +558,7 @@ def run_all(chk, hy, model_ok, thorough):
     rng = chk.rng
     env = P.make_module(hy)
     depth = 4 if thorough else 3
-    n_pat = 12000 if thorough else 330
+    n_pat = 7000 if thorough else 330
     chk.rule = ("patterns of depth <= %d from all kinds of the sublanguage (literals incl. the strings None/True, singletons, "
                 "wildcard, captures incl. hyphenated names, dotted values, keywords, sequences with #* name / #* _, mappings "
                 "with #** rest, class patterns on builtins, on a class with __match_args__ (positional + keyword, incl. a "
@@ -616,4 +616,4 @@ def run_all(chk, hy, model_ok, thorough):
                     if cls:
                         desc["class"] = cls
                     chk.fail("pattern", desc, repr(r_hy), repr(r_py), src_hy)
-    match_phase(chk, hy, env, 6000 if thorough else 250, depth - 1)
+    match_phase(chk, hy, env, 3500 if thorough else 250, depth - 1)
